@@ -24,6 +24,7 @@
 
 #![allow(non_upper_case_globals)]
 
+mod recv;
 mod scenarios;
 #[cfg(not(feature = "noalloc"))]
 mod variants;
@@ -108,6 +109,7 @@ fn menu(nr: i64) -> (&'static [i32], usize) {
     const CFR: &[i32] = &[EXDEV, EIO];
     const STAT: &[i32] = &[EACCES];
     const RW: &[i32] = &[EINTR, EIO];
+    const MSG: &[i32] = &[EAGAIN, EINTR, ENOMEM];
     const POLL: &[i32] = &[EINTR, ENOMEM];
     const CLOSE: &[i32] = &[EINTR, EIO];
     const WAIT: &[i32] = &[EINTR, ECHILD];
@@ -135,6 +137,7 @@ fn menu(nr: i64) -> (&'static [i32], usize) {
         SYS_copy_file_range => (CFR, 1),
         SYS_statx | SYS_fstat | SYS_stat | SYS_lstat | SYS_newfstatat => (STAT, 1),
         SYS_read | SYS_write | SYS_readv | SYS_writev => (RW, 1),
+        SYS_recvmsg | SYS_sendmsg | SYS_recvfrom | SYS_sendto => (MSG, 1),
         SYS_ppoll | SYS_poll | SYS_epoll_pwait | SYS_epoll_wait => (POLL, 1),
         SYS_close => (CLOSE, 1),
         SYS_wait4 => (WAIT, 1),
@@ -376,6 +379,8 @@ struct FdPlan {
     /// every `close` really closes and then reports this errno (drop phase)
     close_err: Option<i32>,
     pairs: HashMap<usize, [i32; 2]>,
+    /// descriptors the kernel installed through SCM_RIGHTS control messages of a successful recvmsg (read from the control buffer the kernel filled)
+    received: HashMap<usize, Vec<i32>>,
     /// parent-side read/write calls whose descriptor is a socket
     sock: HashSet<usize>,
     shared: *mut Shared,
@@ -488,6 +493,12 @@ impl Plan for FdPlan {
                 }
             }
         }
+        if c.nr == libc::SYS_recvmsg && c.real.map(|r| r >= 0).unwrap_or(false) && c.args[1] != 0 {
+            let fds = unsafe { scm_rights_installed(c.args[1] as *const libc::msghdr) };
+            if !fds.is_empty() {
+                self.received.insert(idx, fds);
+            }
+        }
         if c.real == Some(0) && (c.nr == libc::SYS_pipe2 || c.nr == libc::SYS_pipe || c.nr == libc::SYS_socketpair) {
             let p = if c.nr == libc::SYS_socketpair { c.args[3] } else { c.args[0] } as *const i32;
             if !p.is_null() {
@@ -496,6 +507,36 @@ impl Plan for FdPlan {
             }
         }
     }
+}
+
+/// The descriptors the kernel installed for the SCM_RIGHTS messages of a received msghdr — a reference walk over the
+/// control buffer as the kernel leaves it (msg_controllen = bytes used; a truncated last message may end unaligned).
+unsafe fn scm_rights_installed(m: *const libc::msghdr) -> Vec<i32> {
+    let mut out = Vec::new();
+    let base = (*m).msg_control as usize;
+    let end = base + (*m).msg_controllen as usize;
+    if base == 0 {
+        return out;
+    }
+    let mut p = base;
+    while p + 16 <= end {
+        let len = (p as *const usize).read_unaligned();
+        let level = ((p + 8) as *const i32).read_unaligned();
+        let ty = ((p + 12) as *const i32).read_unaligned();
+        if len < 16 {
+            break;
+        }
+        if level == libc::SOL_SOCKET && ty == libc::SCM_RIGHTS {
+            let data_end = (p + len).min(end);
+            let mut q = p + 16;
+            while q + 4 <= data_end {
+                out.push((q as *const i32).read_unaligned());
+                q += 4;
+            }
+        }
+        p += (len + 7) & !7;
+    }
+    out
 }
 
 // ---------------------------------------------------------------------------
@@ -550,7 +591,7 @@ impl Shadow {
         self.closed_in_run.remove(&fd);
         ordinal
     }
-    fn apply(&mut self, idx: usize, c: &Call, pairs: &HashMap<usize, [i32; 2]>, phase: &str) {
+    fn apply(&mut self, idx: usize, c: &Call, pairs: &HashMap<usize, [i32; 2]>, received: &HashMap<usize, Vec<i32>>, phase: &str) {
         let Some(real) = c.real else { return }; // forced: never happened
         let nr = c.nr;
         let name = sysx::name(nr);
@@ -563,6 +604,13 @@ impl Shadow {
                 if let Some(p) = pairs.get(&idx) {
                     let o = self.add(p[0], name, 0, None);
                     self.add(p[1], name, 1, Some(o));
+                }
+            }
+        } else if nr == libc::SYS_recvmsg {
+            if let Some(fds) = received.get(&idx) {
+                let mut ord = None;
+                for (i, fd) in fds.iter().enumerate() {
+                    ord = Some(self.add(*fd, name, i, ord));
                 }
             }
         } else if nr == libc::SYS_dup3 || nr == libc::SYS_dup2 {
@@ -610,6 +658,7 @@ fn generic_label(sc: &str, ordinal: usize, sub: usize, total: usize) -> String {
         "accept4" | "accept" => "accepted-socket",
         "epoll_create1" | "epoll_create" => "epoll-fd",
         "io_uring_setup" => "ring-fd",
+        "recvmsg" => "received-not-handed-over",
         "pipe2" | "pipe" => {
             if sub == 0 {
                 "pipe-read-end"
@@ -730,7 +779,7 @@ fn run_case(s: &mut Scn, env: &mut Env, faults: &[Fault], drop_close: Option<i32
     apply_start();
     let lent_before: Vec<Option<(u64, u64, i32, i32)>> = lent.iter().map(|fd| fd_ident(*fd)).collect();
     let before = fd_map();
-    let mut plan = FdPlan { parent, faults: faults.to_vec(), hit: vec![false; faults.len()], close_err: None, pairs: HashMap::new(), sock: HashSet::new(), shared: cx.shared };
+    let mut plan = FdPlan { parent, faults: faults.to_vec(), hit: vec![false; faults.len()], close_err: None, pairs: HashMap::new(), received: HashMap::new(), sock: HashSet::new(), shared: cx.shared };
     // ---- phase A: the operation
     let (res, log_a) = sysx::run(&mut plan, || {
         let x = catch(|| {
@@ -744,11 +793,12 @@ fn run_case(s: &mut Scn, env: &mut Env, faults: &[Fault], drop_close: Option<i32
     child_guard();
     let after_a = fd_map();
     let pairs_a = std::mem::take(&mut plan.pairs);
+    let received_a = std::mem::take(&mut plan.received);
     let sock_idx = std::mem::take(&mut plan.sock);
     let hit = plan.hit.clone();
     let mut sh = Shadow::new(&before, &given);
     for (i, c) in log_a.iter().enumerate() {
-        sh.apply(i, c, &pairs_a, "operation");
+        sh.apply(i, c, &pairs_a, &received_a, "operation");
     }
     let low_fd_handed_out = log_a.iter().enumerate().any(|(i, c)| {
         let Some(real) = c.real else { return false };
@@ -806,7 +856,7 @@ fn run_case(s: &mut Scn, env: &mut Env, faults: &[Fault], drop_close: Option<i32
     }
 
     // ---- phase B: drop the returned value under the seam
-    let mut plan_b = FdPlan { parent, faults: vec![], hit: vec![], close_err: drop_close, pairs: HashMap::new(), sock: HashSet::new(), shared: std::ptr::null_mut() };
+    let mut plan_b = FdPlan { parent, faults: vec![], hit: vec![], close_err: drop_close, pairs: HashMap::new(), received: HashMap::new(), sock: HashSet::new(), shared: std::ptr::null_mut() };
     let (dres, log_b) = sysx::run(&mut plan_b, || catch(move || drop(held)));
     let after_b = fd_map();
 
@@ -954,7 +1004,7 @@ fn run_case(s: &mut Scn, env: &mut Env, faults: &[Fault], drop_close: Option<i32
     // ---- analysis of the drop
     let pairs_b = HashMap::new();
     for (i, c) in log_b.iter().enumerate() {
-        sh.apply(i, c, &pairs_b, "drop of the returned value");
+        sh.apply(i, c, &pairs_b, &HashMap::new(), "drop of the returned value");
     }
     if let Err(p) = dres {
         r.violation(&format!("C12:{name}:panic"), format!("dropping the value returned by {name} panicked ({ctxt}): {p}"), cj.clone());
